@@ -159,7 +159,7 @@ pub fn c09(tier: &str) -> i32 {
             };
             let opts = Opts { max_depth: 64, max_memo: 64, dev_budget: if has_m || !quick { 1 } else { 0 }, frame: FrameSel::Off, ref_in_key: false, shape_key: true, max_path: lp, ..Opts::default() };
             let t0 = Instant::now();
-            let ex = Explorer { base_cfg: cfg, opts, monitor: &guard, xval_full: Default::default() };
+            let ex = Explorer { base_cfg: cfg, opts, monitor: &guard, xval_full: Default::default(), choice_discovery: Default::default() };
             let out = ex.explore(None);
             let l = format!("P{p}/{label}/shape/Lp{lp}");
             if verbose {
@@ -183,7 +183,7 @@ pub fn c09(tier: &str) -> i32 {
         };
         let opts = Opts { max_depth: d, max_memo: m, dev_budget: 0, frame: FrameSel::Off, ref_in_key: false, alias_key: true, ..Opts::default() };
         let t0 = Instant::now();
-        let ex = Explorer { base_cfg: Cfg::new(p).flags(true, true), opts, monitor: &guard, xval_full: Default::default() };
+        let ex = Explorer { base_cfg: Cfg::new(p).flags(true, true), opts, monitor: &guard, xval_full: Default::default(), choice_discovery: Default::default() };
         let out = ex.explore(None);
         let l = format!("P{p}/none/alias-relation/D{d}M{m}");
         if verbose {
@@ -214,7 +214,7 @@ pub fn c09(tier: &str) -> i32 {
             for (d, m, b) in boxes {
                 let opts = Opts { max_depth: d, max_memo: m, dev_budget: b, frame: FrameSel::Both, ref_in_key: false, ..Opts::default() };
                 let t0 = Instant::now();
-                let ex = Explorer { base_cfg: cfg.clone(), opts, monitor: &guard, xval_full: Default::default() };
+                let ex = Explorer { base_cfg: cfg.clone(), opts, monitor: &guard, xval_full: Default::default(), choice_discovery: Default::default() };
                 let out = ex.explore(None);
                 let l = format!("P{p}/{label}/D{d}M{m}b{b}");
                 if verbose {
@@ -330,7 +330,7 @@ pub fn c09(tier: &str) -> i32 {
             continue;
         }
         let noop = |_: &RunCtx| -> Vec<Finding> { vec![] };
-        let ex = Explorer { base_cfg: Cfg::new(p).flags(true, true), opts: Opts::default(), monitor: &noop, xval_full: Default::default() };
+        let ex = Explorer { base_cfg: Cfg::new(p).flags(true, true), opts: Opts::default(), monitor: &noop, xval_full: Default::default(), choice_discovery: Default::default() };
         for (first, repo, label) in STRATEGIES {
             let Some((first, repo)) = strategy_ops(p, first, repo) else { continue };
             match steady(&ex, first, repo) {
